@@ -127,7 +127,7 @@ def main(argv=None):
     for r in results:
         for cex in r["cex"]:
             seen += 1
-            if len(violations) >= 3:
+            if len(violations) >= 3 or n_replays >= 10:
                 continue
             rec = dict(property=prop, module=modname, cfg=r["cfg"], cex=cex)
             path = os.path.join(HERE, "replays", f"{prop}_{len(violations) + 1}.json")
@@ -236,11 +236,14 @@ def main(argv=None):
         print(f"KNOWN-FINDING: property={prop} {findings[fid]['what']} [{fid}; {k['count']} path(s); replay={k['replay']}]")
     if any(r.get("cross", {}).get("disagree") for r in results):
         harness_errors.append("z3 and cvc5 disagree on a discharged obligation (see inconclusive items)")
-    if harness_errors:
+    if harness_errors and not violations:
         for e in harness_errors[:10]:
             print("HARNESS-ERROR", e)
         return HARNESS_ERROR
     if violations:
+        # a counterexample that reproduces on the real code is a violation whatever else went wrong in the run
+        for e in harness_errors[:10]:
+            print("HARNESS-NOTE", e[:400])
         for path, rec, out in violations:
             print(f"VIOLATION property={prop} replay={path}")
             print("   cfg:", json.dumps(rec["cfg"]), "label:", rec["cex"].get("label"), "detail:", rec["cex"].get("detail"))
